@@ -194,6 +194,13 @@ def check_sequences(res: Result, seqs, roundtrip_every):
                 if rt["fresh"] != want:
                     res.violation({"clause": "rust_snapshot_roundtrip"}, case, {"step": i, "got": rt["fresh"], "want": want})
                     break
+                if rt.get("temps_state") is not None:
+                    res.monitor("rust_temp_roundtrip")
+                    if rt["temps_fresh"] != rt["temps_state"] or 0 in rt["temps_state"]:
+                        lost = [k for k in range(14) if rt["temps_fresh"][k] != rt["temps_state"][k]]
+                        res.violation({"clause": "rust_snapshot_roundtrip_temps", "lost": lost[:4]}, case,
+                                      {"step": i, "state": rt["temps_state"], "fresh": rt["temps_fresh"]})
+                        break
                 res.monitor("cross_blob")
                 if blob.hex() != rt["blob"]:
                     res.violation({"clause": "register_blob_layout_differs"}, case,
